@@ -22,7 +22,7 @@ int main(int argc, char **argv)
     setvbuf(stdout, 0, _IOLBF, 0);
     ITER = atoi(argv[1]); int part = atoi(argv[2]), nparts = atoi(argv[3]); int NT = 4; long programs = 0;
     shared_setup(&SH);
-    for (int t = 0; t < NT; t++) { CTX[t] = malloc(sizeof(tctx)); REF[t] = malloc(sizeof(tctx)); }
+    { tctx *blk = malloc(sizeof(tctx) * (NT + 1)), *rblk = malloc(sizeof(tctx) * (NT + 1)); for (int t = 0; t < NT; t++) { CTX[t] = &blk[t]; REF[t] = &rblk[t]; } }   /* adjacent private blocks */
     int idx = 0;
     for (int i = 0; i < NOPS; i++) for (int j = i; j < NOPS; j++, idx++) {
         if (idx % nparts != part) continue;
